@@ -1,5 +1,16 @@
 // ---- entity_hier prelude ----
 #[verifier::external_body] pub struct EntityUID { _p: u8 }
 impl Clone for EntityUID { #[verifier::external_body] fn clone(&self) -> (r: Self) ensures r == *self { unimplemented!() } }
+#[verifier::external_body] pub struct EntityType { _p: u8 }
+#[verifier::external_body] pub struct Eid { _p: u8 }
+/// the read-only API of EntityUID, opaque: code that consults it gets no information beyond determinism
+impl EntityUID {
+    pub uninterp spec fn spec_is_action(&self) -> bool;
+    pub uninterp spec fn spec_entity_type(&self) -> EntityType;
+    pub uninterp spec fn spec_eid(&self) -> Eid;
+    #[verifier::external_body] pub fn is_action(&self) -> (r: bool) ensures r == self.spec_is_action() { unimplemented!() }
+    #[verifier::external_body] pub fn entity_type(&self) -> (r: &EntityType) ensures *r == self.spec_entity_type() { unimplemented!() }
+    #[verifier::external_body] pub fn eid(&self) -> (r: &Eid) ensures *r == self.spec_eid() { unimplemented!() }
+}
 #[verifier::external_body] pub struct SmolStr { _p: u8 }
 #[verifier::external_body] pub struct PartialValue { _p: u8 }
